@@ -325,7 +325,16 @@ pub fn run(job: &Value, prelude: &'static str) -> Value {
     let work = job.get("work").and_then(Value::as_str).unwrap_or("/tmp").to_string();
     let stats0 = boa_gc::verif::stats();
     let ic0 = boa_engine::verif::ic_hits();
+    let sc0 = boa_engine::verif::shortcut_counts();
     apply_gc(job.get("gc"));
+    let want_dump = job.get("dump").and_then(Value::as_bool).unwrap_or(false);
+    let want_samples = job.get("samples").and_then(Value::as_bool).unwrap_or(false);
+    // the prelude is compiled before dumping starts unless asked otherwise
+    let dump_prelude = job.get("dump_prelude").and_then(Value::as_bool).unwrap_or(false);
+    if dump_prelude {
+        boa_engine::verif::set_dump(want_dump);
+        boa_engine::verif::set_depth_sampling(want_samples);
+    }
 
     let executor = Rc::new(SimpleJobExecutor::new());
     let mut contexts: Vec<Context> = Vec::new();
@@ -345,6 +354,8 @@ pub fn run(job: &Value, prelude: &'static str) -> Value {
     }
     // trace produced by the prelude (nothing, normally) is dropped
     let _ = util::take_trace();
+    boa_engine::verif::set_dump(want_dump);
+    boa_engine::verif::set_depth_sampling(want_samples);
     let mut realms: Vec<Vec<Realm>> = (0..ncontexts).map(|_| Vec::new()).collect();
     let mut scripts: Vec<Option<Script>> = Vec::new();
 
@@ -564,7 +575,21 @@ pub fn run(job: &Value, prelude: &'static str) -> Value {
         // a pending queue is observed by the caller through a final `jobs` step instead.)
         Value::Null
     };
+    boa_engine::verif::set_dump(false);
+    boa_engine::verif::set_depth_sampling(false);
+    let dumps: Vec<Value> = boa_engine::verif::take_dumps()
+        .iter()
+        .map(|d| serde_json::from_str(d).unwrap_or(Value::Null))
+        .collect();
+    let depth_samples: Vec<Value> = boa_engine::verif::take_depth_samples()
+        .iter()
+        .map(|(id, from, to, d)| json!([id, from, to, d[0], d[1], d[2]]))
+        .collect();
     let stats_live = boa_gc::verif::stats();
+    let shortcuts = {
+        let sc = boa_engine::verif::shortcut_counts();
+        json!([sc[0] - sc0[0], sc[1] - sc0[1], sc[2] - sc0[2], sc[3] - sc0[3]])
+    };
     let census = if job.get("census").and_then(Value::as_bool).unwrap_or(false) {
         boa_gc::verif::set_stress(None);
         boa_gc::verif::set_collect_at(0);
@@ -590,6 +615,9 @@ pub fn run(job: &Value, prelude: &'static str) -> Value {
             "boxes": stats_live.strong_boxes,
         },
         "ic_hits": boa_engine::verif::ic_hits() - ic0,
+        "shortcuts": shortcuts,
+        "dumps": dumps,
+        "depth_samples": depth_samples,
         "census": census,
         "queue": queue_empty,
     })
